@@ -96,6 +96,10 @@ def from_conv(e, body, dmap, pmap, depth=0):
     return False
 
 
+def last_seg(p):
+    return p.rsplit("::", 1)[-1] if p else ""
+
+
 def rule_pos_conv(prog):
     out = Out("POS-CONV")
     c = prog.lsp
@@ -190,6 +194,28 @@ def rule_pos_conv(prog):
                         c.loc(fld["sp"]),
                         "a client-supplied line/character is interpreted outside document::get_insertion_index, the one place that "
                         "maps UTF-16 columns to byte offsets")
+    # the unit the conversions implement is the unit that is promised: no position encoding other than UTF-16 is announced
+    bad = None
+    for b in bodies:
+        cands = []
+        for st in hir.nodes(b["body"], "Struct"):
+            for f in st["fields"]:
+                if f["name"] == "position_encoding":
+                    cands.append(f["e"])
+        for a in hir.nodes(b["body"], "Assign"):
+            l = hir.strip(a["l"])
+            if l.get("k") == "Field" and l["name"] == "position_encoding":
+                cands.append(a["r"])
+        for e in cands:
+            e_ = hir.strip(e)
+            is_none = e_.get("k") == "Path" and last_seg(e_["res"].get("ctor_of", "")) == "None"
+            is_utf16 = e_.get("k") == "Call" and last_seg((hir.path_def(e_["f"]) or {}).get("ctor_of", "")) == "Some" and \
+                ((hir.path_def(hir.strip(e_["args"][0])) or {}).get("p", "")).endswith("PositionEncodingKind::UTF16")
+            if not (is_none or is_utf16):
+                bad = (b, e)
+    out.add("ServerCapabilities.position_encoding", "no position encoding other than UTF-16 is announced", bad is None,
+            c.loc(bad[1]["sp"]) if bad else "", "the initialize reply promises a column unit the conversion functions do not implement "
+            "(they count UTF-16 code units): a client that takes the offer sends and expects other columns" if bad else "", ("encoding",))
     if n < 15:
         out.missing("LSP position producers/consumers (found %d)" % n)
     return out
